@@ -7,6 +7,36 @@ sys.path.insert(0, HERE)
 sys.path.insert(0, REPO)   # always the current working tree of the repository
 
 
+def import_eon_with_poisoned_rng_constructors():
+    """A generator object created at import time of an EoN module (e.g. a module-level numpy default_rng() or random.Random())
+    would escape the run-time closed world; while EoN is imported, the constructors return objects whose every use raises."""
+    import importlib
+    for m in ('networkx', 'numpy', 'scipy.integrate', 'scipy.ndimage', 'scipy.special', 'matplotlib.pyplot', 'matplotlib.animation'):
+        try:
+            importlib.import_module(m)
+        except Exception:
+            pass
+    import random as _r
+    import numpy as _np
+    from vlib.stubs import UnmodelledRandomness
+
+    class PoisonRNG:
+        def __init__(self, *a, **k):
+            object.__setattr__(self, '_what', 'a random generator created when an EoN module was imported')
+
+        def __getattr__(self, name):
+            raise UnmodelledRandomness('%s (.%s)' % (object.__getattribute__(self, '_what'), name))
+    saved = [(_np.random, 'default_rng', _np.random.default_rng), (_np.random, 'RandomState', _np.random.RandomState),
+             (_np.random, 'Generator', _np.random.Generator), (_r, 'Random', _r.Random), (_r, 'SystemRandom', _r.SystemRandom)]
+    for obj, attr, _ in saved:
+        setattr(obj, attr, PoisonRNG)
+    try:
+        import EoN      # noqa
+    finally:
+        for obj, attr, val in saved:
+            setattr(obj, attr, val)
+
+
 def main():
     ap = argparse.ArgumentParser()
     ap.add_argument('prop')
@@ -16,6 +46,7 @@ def main():
     ap.add_argument('--workers', type=int)
     a = ap.parse_args()
     seed = int(os.environ.get('VERIF_SEED', '0'))
+    import_eon_with_poisoned_rng_constructors()
     import EoN
     assert os.path.realpath(EoN.__file__).startswith(os.path.realpath(REPO)), EoN.__file__
     from vlib import harness
